@@ -27,7 +27,7 @@ ROWS = {
  "C02": ("C02.check_ok_iff (nil ⇔ Key's result re-encodes to the stored digest), error-return theorems, tampered_digest_never_ok; for EVERY scheme the documented password equivalence as a predicate, 'equivalent ⇒ same verdict' and 'both verify ⇒ equivalent ∨ a named collision of the primitive' (KdfProps.*_absorbs, C02b.des/desext/bcrypt/nthash/argon2_check_absorbs); desext_twin_checks, bcryptEquiv_coarser (the algorithm's equivalence is coarser than the wording: F16, F17)",
          "T+H", "scheme (near-miss passwords under each scheme's equivalence, every digest-symbol substitution, the proved inherent equivalences replayed)", "the non-collision of the primitives is an explicit disjunct (a hypothesis, never an axiom)"),
  "C03": ("model = reference written from the published algorithm, ∀ inputs (and ∀ hash function where generic): md5crypt_eq_spec, sha2crypt_eq_spec, C03b.sha1crypt_eq_spec, sunmd5_eq_spec(_wrap), nthash_eq_spec, bcrypt_eq_spec (+ bcrypt_long_password_deviation: the documented pre-2b ≥254-byte rule), descrypt/desext_layer_eq_spec, and C03b.encrypt_eq_fips: the table-driven DES (tables regenerated from const.go) = FIPS 46-3 DES with the crypt(3) salt swap for every 64-bit key and block",
-         "T: all DES tables, permutation tables · H: KDF skeletons, Lean primitives",
+         "T: all DES tables, permutation tables, and the KDF bodies of md5-crypt / SHA-crypt / sha1-crypt / Permute (KdfIR: regenerated hash-transcript IR = skeleton) · H: Sun MD5, DES/BSDi, bcrypt bodies, Lean primitives",
          "kdf (Go Key vs model) + xcrypt (Go vs the system's libxcrypt 4.4 via cgo, both directions)",
          "hash/cipher primitives are parameters or hand copies validated differentially; libxcrypt tie is a test; F11"),
  "C04": ("C04.key_eq_rfc (∀ P,S,p,T,m,t on 1≤p≤255, 8p≤m<2³²: model key = independent RFC 9106 reference), blake2bHash_eq_H', processBlock_eq_G, indexAlpha_eq_refIndex (regenerated kernel), roundedMemory_eq_rfc",
@@ -40,7 +40,7 @@ ROWS = {
          "classify (every edit at distance 1, splices, wrap-around numbers, duplicated group members, last-symbol sweep, explicit versions, short strings); a class disagreement is a concrete misclassified string",
          "arbitrary struct types are C10/C20's; F9"),
  "C07": ("dispatcher refines a last-writer-wins map (check_refines_registry), prefix rule = lexer's prefix (prefixOf_none_iff_parse_error), builtins_registered / registrations_only_in_init over regenerated facts",
-         "T: init registrations · H: Check", "dispatch", "sync.Map trusted"),
+         "T: init registrations, Check and RegisterHash themselves (DispatchFlow: regenerated structured IR = model), lexPrefix", "dispatch", "sync.Map trusted"),
  "C08": ("conc_results_isolated / conc_race_free / conc_published_never_written for ANY thread count and schedule of the protocol model; alias_has_race (the repaired defect, in the model); registry theorems; shared_state_facts / no_late_global_writes (regenerated: the only sync/map/chan package variables are the two sync.Maps, used only through Load/Store/LoadOrStore)",
          "T: shared-state facts · measured protocol facts (hook) · H",
          "race:conc (race detector; results vs sequential table; concurrent registrations of distinct prefixes), cache", "Go memory model, sync.Map, reflect; footprints are a hand abstraction"),
@@ -51,7 +51,7 @@ ROWS = {
          "T: shapes · H: codec",
          "codec (run-time generated struct types incl. layout-shaped ones; round trip, re-marshal stability; the in-domain direct check uses the theorem's hypothesis)", "codec model tied differentially; F12"),
  "C11": ("parse_lossless, parse_eq_ref (= split-based reference on every input), spans_exact, values_no_delim, groups_surface_once, parse_error_iff, lexer terminal token last, lexer_goroutine_facts (regenerated)",
-         "H + T: goroutine-structure facts", "parse (all strings ≤ 7 over the delimiter alphabet + random; token streams via hook; goroutine count)", "channel runtime; goroutine exit observed"),
+         "T: lexPrefix/emit (DispatchFlow), goroutine-structure facts · H: fragment loop, Parse", "parse (all strings ≤ 7 over the delimiter alphabet + random; token streams via hook; goroutine count)", "channel runtime; goroutine exit observed"),
  "C12": ("EndToEnd.newHash_canonical_⟨S⟩ (∀ request: output accepted by the independent recogniser with documented prefix, requested cost in canonical form, default-length salt over the alphabet, fixed-length digest = Key's result re-encoded), params_of_newHash_⟨S⟩, defaults_agree (Params and Check apply the same defaults: regenerated flow IR)",
          "T: flow IR (evaluates to the pipeline model: FlowModel), shapes, constants · H: codec, KDF bodies",
          "scheme (independent regular expression, byte identity with model, BSDi integer coding, the exported cost bound, Check ⇔ Key(Params) on non-canonical spellings)", "model↔Go differential"),
@@ -111,7 +111,9 @@ is empty). One run of a check does, in order:
    (package variables of sync / map / channel type and every use of them), goroutine-structure facts
    (every `go` statement with its enclosing loops and the WaitGroup discipline around it), the
    base64 / Argon2 / SHA-1 index expressions as Lean `Nat` kernels with explicit `% 2^bits`, the
-   guard clauses of every `Key`, the flow IR of every `Check`/`Params`/`NewHash` (locals of the
+   guard clauses of every `Key`, a hash-transcript IR of the KDF bodies (`md5crypt.Encrypt`,
+   `sha2crypt.Encrypt`/`duplicate`, `cryptoutil.Permute`, the HMAC loop of `sha1.Key`), a structured IR of
+   `crypt.Check` / `RegisterHash` / `lexPrefix`, the flow IR of every `Check`/`Params`/`NewHash` (locals of the
    package's own struct types named after the type), and the slice-effect IR of every `Key` with
    module-internal callees inlined, pointer stores, and strong updates merged at block exits.
    Output is buffered and written only if the whole translation succeeded; a source the translator
